@@ -53,6 +53,8 @@ fn main() {
                 "C09" => rnv::c09::main(&ctx),
                 "C18" => rnv::c18::main(&ctx),
                 "C06" => rnv::c06::main(&ctx),
+                "C10" => rnv::c10::main(&ctx),
+                "C16" | "C17" => rnv::c1617::main(&ctx),
                 "C03" => rnv::c02::main(&ctx, rnv::logmodel::Profile::Truncation),
                 _ => {
                     eprintln!("unknown property {}", id);
